@@ -14,8 +14,8 @@ import Tickit.Gen.RBWidth
     on one another (`put_string`/`skip`/`erase` run placement, `hline`/`vline`, the `*rect` loops) are
     recursive.  The run placement loop takes a fuel; running out is the sticky `fuelOut` flag.
   * `abort()` (the "unreachable" arms of `make_span`) is the sticky `aborted` flag.
-  * `tickit_renderbuffer_new` leaves `vc_line`/`vc_col` uninitialised and `save` copies them: the
-    indeterminate values are explicit parameters of `RB.new`.
+  * `tickit_renderbuffer_new` leaves `vc_line`/`vc_col` uninitialised and `save` copies them (together with
+    `vc_pos_set`, which says they are meaningless): the indeterminate values are explicit parameters of `RB.new`.
   * Pens and strings are values (reference counts are not modelled here; the real run is under ASan/LSan).
     A NULL pen pointer in a cell is the empty pen: the field is only read in states that assigned it.
   * Pen attribute values are taken inside the range of their bit-fields (no wrap-around here; that is C19).
@@ -291,9 +291,12 @@ deriving DecidableEq, Repr, Inhabited
 structure Row where
   get : Int → Cell
 
-/-- `RBStack`.  In a `pen_only` frame only `pen` is initialised (the other fields are never read). -/
+/-- `RBStack`.  In a `pen_only` frame only `pen` is initialised (the other fields are never read).
+    `vcPosSet` is the `vc_pos_set` bit added by the repair 85271b4 (save/restore must also save whether the
+    virtual cursor is set). -/
 structure Frame where
   penOnly : Bool
+  vcPosSet : Bool := false
   vcLine : Int := 0
   vcCol : Int := 0
   xlLine : Int := 0
@@ -483,7 +486,9 @@ def putStringCols (rb : RB) (line col : Int) (s : List UInt8) (cols : Int) : RB 
   | none => rb
   | some r => placeRuns (fillText rb.pen s) r.line (r.cols.toNat + 1) rb r.col r.cols r.startcol
 
-/-- Return value of `put_string` / `put_text`: the columns of the whole string, or −1. -/
+/-- Return value of `put_string` / `put_text`: the columns of the whole string, or −1.
+    (Since e303fef/ef0c9fa `put_string` is a wrapper around `put_string_slice(rb, line, col, s, 0, columns)`;
+    `putStringCols` is that call: the slice loop with `offs = 0`.  The general slice is `RBCopy.putStringSlice`.) -/
 def putStringRet (s : List UInt8) : Int :=
   match Utf8.stringColumns s with
   | none => -1
@@ -595,7 +600,7 @@ def reset (rb : RB) : RB :=
 /-- `tickit_renderbuffer_save`. -/
 def save (rb : RB) : RB :=
   { rb with
-    stack := { penOnly := false, vcLine := rb.vcLine, vcCol := rb.vcCol, xlLine := rb.xlLine, xlCol := rb.xlCol,
+    stack := { penOnly := false, vcPosSet := rb.vcSet, vcLine := rb.vcLine, vcCol := rb.vcCol, xlLine := rb.xlLine, xlCol := rb.xlCol,
                clip := rb.clip, pen := rb.pen } :: rb.stack
     depth := rb.depth + 1 }
 
@@ -610,7 +615,8 @@ def restore (rb : RB) : RB :=
   | f :: prev =>
     let rb1 : RB :=
       if !f.penOnly then
-        { rb with vcLine := f.vcLine, vcCol := f.vcCol, xlLine := f.xlLine, xlCol := f.xlCol, clip := f.clip }
+        { rb with vcSet := f.vcPosSet, vcLine := f.vcLine, vcCol := f.vcCol, xlLine := f.xlLine, xlCol := f.xlCol,
+                  clip := f.clip }
       else rb
     let depth := rb.depth - 1
     { rb1 with
